@@ -154,7 +154,11 @@ class Sched(object):
       fn = me.pending_call
       me.pending_call = None
       self.events.append((me.name, 'signal-handler', None, None))
-      fn()
+      try:
+        fn()
+      except BaseException:
+        me.handler_raised = True
+        raise
 
   def _deliver(self, me):
     if me.pending_exc is not None:
@@ -260,12 +264,40 @@ def _start(self):
   s.yield_point(('start', ts.name))
 
 
+def _interrupted_join_marks_thread_stopped():
+  """CPython 3.9.8 - 3.12 (bpo-45274 handling in Thread._wait_for_tstate_lock): when join() is left by an exception
+  raised from a signal handler while the target still holds its tstate lock, the except-branch finds `lock.locked()`
+  true, releases the lock and calls `_stop()`: the target is from then on reported as not alive and every later join()
+  returns at once although the thread keeps running. The scheduler reproduces what the installed interpreter does."""
+  import inspect
+  f = getattr(_th.Thread, '_wait_for_tstate_lock', None)
+  if f is None:
+    return False
+  try:
+    return 'lock.locked()' in inspect.getsource(f)
+  except (OSError, TypeError):
+    return False
+
+
+JOIN_INTERRUPT_BUG = _interrupted_join_marks_thread_stopped()
+
+
 def _join(self, timeout=None):
   s = SCHED
   ts = getattr(self, '_cosched_ts', None)
   if s is None or ts is None or s.me() is None:
     return _real_join(self, timeout)
-  s.block(lambda: ts.finished, timeout, ('join', ts.name))
+  me = s.me()
+  me.handler_raised = False
+  try:
+    s.block(lambda: ts.finished or getattr(ts, 'fake_stopped', False), timeout, ('join', ts.name))
+  except (Deadlock, SchedulerStuck):
+    raise
+  except BaseException:
+    if JOIN_INTERRUPT_BUG and getattr(me, 'handler_raised', False) and not ts.finished:
+      ts.fake_stopped = True
+      s.log('join-interrupted-marks-stopped', self)
+    raise
 
 
 def _is_alive(self):
@@ -280,7 +312,7 @@ def _is_alive(self):
   s = SCHED
   if s.me() is not None:
     s.yield_point(('is_alive', ts.name))
-  r = ts.started and not ts.finished
+  r = ts.started and not ts.finished and not getattr(ts, 'fake_stopped', False)
   if s.me() is not None:
     s.log('is_alive', self, r)
   return r
@@ -297,12 +329,15 @@ class CoLock(object):
   def __init__(self):
     self.owner = None
     self.role = None
+    self._real = _th.Lock()     # used outside scheduled runs (worker processes keep the patched modules)
 
   def acquire(self, blocking=True, timeout=-1):
     s = _managed()
     if s is None:
-      self.owner = 'unmanaged'
-      return True
+      got = self._real.acquire(blocking, -1 if timeout is None else timeout)
+      if got:
+        self.owner = 'unmanaged'
+      return got
     me = s.me()
     if not blocking:
       s.yield_point(('tryacquire', self.role))
@@ -322,6 +357,10 @@ class CoLock(object):
     # the release itself is atomic and cannot be interrupted by an asynchronous exception (it is C code in
     # CPython): effect first, scheduling point (and possible delivery) afterwards
     s = _managed()
+    if self.owner == 'unmanaged':
+      self.owner = None
+      self._real.release()
+      return
     self.owner = None
     if s is not None:
       s.log('rel', self)
@@ -332,6 +371,7 @@ class CoLock(object):
 
   def _at_fork_reinit(self):
     self.owner = None
+    self._real = _th.Lock()
 
   def __enter__(self):
     self.acquire()
@@ -347,11 +387,12 @@ class CoRLock(object):
     self.owner = None
     self.count = 0
     self.role = None
+    self._real = _th.RLock()
 
   def acquire(self, blocking=True, timeout=-1):
     s = _managed()
     if s is None:
-      return True
+      return self._real.acquire(blocking, -1 if timeout is None else timeout)
     me = s.me()
     if self.owner is me:
       self.count += 1
@@ -374,6 +415,10 @@ class CoRLock(object):
   def release(self):
     s = _managed()
     if s is None:
+      try:
+        self._real.release()
+      except RuntimeError:
+        pass            # acquired inside a scheduled run that has ended
       return
     if self.count > 1:
       self.count -= 1
@@ -388,6 +433,7 @@ class CoRLock(object):
 
   def _at_fork_reinit(self):
     self.owner, self.count = None, 0
+    self._real = _th.RLock()
 
   def __enter__(self):
     self.acquire()
@@ -429,6 +475,13 @@ class CoEvent(object):
   def wait(self, timeout=None):
     s = _managed()
     if s is None:
+      # outside a scheduled run (a worker process that ran scheduled cases before keeps the patched modules): behave as
+      # threading.Event does, in real time
+      end = None if timeout is None else _time.time() + timeout
+      while not self.flag:
+        if end is not None and _time.time() >= end:
+          break
+        _time.sleep(0.0005)
       return self.flag
     ok = s.block(lambda: self.flag, timeout, ('wait', self.role))
     s.log('waited', self, ok)
@@ -606,7 +659,9 @@ class _PyApi(object):
   one of its next visible actions (which one is a scheduling choice)"""
 
   def PyThreadState_SetAsyncExc(self, tid, exc):
-    s = SCHED
+    s = _managed()
+    if s is None:
+      return _ctypes.pythonapi.PyThreadState_SetAsyncExc(tid, exc)     # outside scheduled runs: the real thing
     tidv = tid.value if hasattr(tid, 'value') else tid
     for t in s.threads:
       if t.thread.ident == tidv and not t.finished:
